@@ -24,6 +24,14 @@ namespace {
 
 const bool no_exclude = std::getenv("VERIF_NO_EXCLUDE") != nullptr;
 
+//! statistics of observed maxima: non-finite values (a failing case is about to be reported) are not recorded
+inline void
+smax(const std::string& key, double v)
+{
+  if (std::isfinite(v))
+    stats().maxi(key, v);
+}
+
 // tolerances (relative to the reference value of the entry unless said otherwise); see props.d/C20.py for the calibration
 const double TOL_APPLY = 1e-6;   // one float product + one float multiply
 const double TOL_UNAPPLY = 1e-6; // as the design states
@@ -230,7 +238,7 @@ check_conversion(Ctx& X, FanProjData& fan_out)
           {
             const double want = ref[std::size_t(r) * B.n + a];
             const double scale = std::max(want, 1.);
-            stats().maxi("max rel err fan sums", std::max(std::fabs(s1[r][a] - want), std::fabs(s2[r][a] - want)) / scale);
+            smax("max rel err fan sums", std::max(std::fabs(s1[r][a] - want), std::fabs(s2[r][a] - want)) / scale);
             VF_CHECK(std::fabs(s1[r][a] - want) <= TOL_SUMS * scale, "make_fan_sum_data(ProjData) ring ", r, " det ", a, ": ", s1[r][a], " vs direct sum ",
                      want);
             VF_CHECK(std::fabs(s2[r][a] - want) <= TOL_SUMS * scale, "make_fan_sum_data(FanProjData) ring ", r, " det ", a, ": ", s2[r][a],
@@ -260,7 +268,7 @@ check_apply(const char* what, const Ctx& X, const FanProjData& f0, const std::ve
         return Result::fail(cat(what, "(apply=true): entry (ra=", X.dom[i].ra, ",a=", X.dom[i].a, ",rb=", X.dom[i].rb, ",b=", X.dom[i].b, ") = ", got[i],
                                 " expected ", base[i], " x ", factor[i], " = ", want));
     }
-  stats().maxi(std::string("max rel err ") + what + " apply", worst);
+  smax(std::string("max rel err ") + what + " apply", worst);
   apply(f, false);
   const std::vector<double> back = snapshot(f, X.dom);
   worst = 0;
@@ -273,7 +281,7 @@ check_apply(const char* what, const Ctx& X, const FanProjData& f0, const std::ve
         return Result::fail(cat(what, "(apply=false) does not restore entry (ra=", X.dom[i].ra, ",a=", X.dom[i].a, ",rb=", X.dom[i].rb, ",b=", X.dom[i].b,
                                 "): ", back[i], " instead of ", base[i]));
     }
-  stats().maxi(std::string("max rel err ") + what + " un-apply", worst);
+  smax(std::string("max rel err ") + what + " un-apply", worst);
   return Result::pass();
 }
 
@@ -342,7 +350,7 @@ check(const json& c)
   // transaxial blocks (constructor assert) and contains every block pair EXCEPT a block with itself; apply_block_norm and
   // make_block_data index it with the blocks of every pair of the fan without a range test, so the fan must not contain two
   // detectors of one block: half fan <= n/2 - crystals per block  (observation O2 in work/notes/C20_findings.md).
-  const bool block_ok = B.nb_tr >= 2 && B.nb_tr % 2 == 0 && F.new_half_fan <= nph / 2 - B.p_tr;
+  const bool block_ok = B.nb_tr >= 2 && B.nb_tr % 2 == 0 && (no_exclude || F.new_half_fan <= nph / 2 - B.p_tr);
   BlockData3D bd;
   std::vector<double> bfac;
   if (block_ok)
@@ -453,7 +461,7 @@ check(const json& c)
       for (int a = 0; a < nph; ++a)
         {
           const double want = ref[std::size_t(r) * nph + a];
-          stats().maxi("max rel err fan sums", std::fabs(sums[r][a] - want) / want);
+          smax("max rel err fan sums", std::fabs(sums[r][a] - want) / want);
           VF_CHECK(std::fabs(sums[r][a] - want) <= TOL_SUMS * want, "make_fan_sum_data ring ", r, " det ", a, ": ", sums[r][a], " vs direct sum ", want);
         }
     DetectorEfficiencies e2 = eff;
@@ -462,7 +470,7 @@ check(const json& c)
       for (int a = 0; a < nph; ++a)
         {
           const double err = std::fabs(e2[r][a] - eff[r][a]) / eff[r][a];
-          stats().maxi("max rel err fixed point efficiencies", err);
+          smax("max rel err fixed point efficiencies", err);
           VF_CHECK(err <= TOL_FIXED, "iterate_efficiencies moves the exact parameters: ring ", r, " det ", a, ": ", eff[r][a], " -> ", e2[r][a]);
         }
     // version without model (model == 1): fan sums from the efficiencies and the fixed point
@@ -477,7 +485,7 @@ check(const json& c)
         for (int a = 0; a < nph; ++a)
           {
             const double want = ref1[std::size_t(r) * nph + a];
-            stats().maxi("max rel err fan sums", std::fabs(s1[r][a] - want) / want);
+            smax("max rel err fan sums", std::fabs(s1[r][a] - want) / want);
             VF_CHECK(std::fabs(s1[r][a] - want) <= TOL_SUMS * want, "make_fan_sum_data(efficiencies) ring ", r, " det ", a, ": ", s1[r][a], " vs direct ",
                      want);
           }
@@ -487,7 +495,7 @@ check(const json& c)
         for (int a = 0; a < nph; ++a)
           {
             const double err = std::fabs(e3[r][a] - eff[r][a]) / eff[r][a];
-            stats().maxi("max rel err fixed point efficiencies", err);
+            smax("max rel err fixed point efficiencies", err);
             VF_CHECK(err <= TOL_FIXED, "iterate_efficiencies (no model) moves the exact parameters: ring ", r, " det ", a, ": ", eff[r][a], " -> ", e3[r][a]);
           }
     }
@@ -511,7 +519,7 @@ check(const json& c)
                 const double want = gd(ra, a, rb, b % nph);
                 const double got = norm(ra, a, rb, b % nph);
                 const double err = std::fabs(got - want) / want;
-                stats().maxi("max rel err fixed point geo", err);
+                smax("max rel err fixed point geo", err);
                 ++n;
                 VF_CHECK(err <= TOL_FIXED, "iterate_geo_norm moves the exact parameters: (ra=", ra, ",a=", a, ",rb=", rb, ",b=", b % nph, "): ", want, " -> ",
                          got);
@@ -545,7 +553,7 @@ check(const json& c)
                 const double want = bd(RA, A, RB, Bq);
                 const double got = norm(RA, A, RB, Bq);
                 const double err = std::fabs(got - want) / want;
-                stats().maxi("max rel err fixed point block", err);
+                smax("max rel err fixed point block", err);
                 ++n;
                 VF_CHECK(err <= TOL_FIXED, "iterate_block_norm moves the exact parameters: blocks (", RA, ",", A, ",", RB, ",", Bq % B.nb_tr, "): ", want,
                          " -> ", got);
@@ -605,7 +613,7 @@ check(const json& c)
         VF_CHECK(std::isfinite(kl), "KL not finite after efficiency iteration ", k);
         const double excess = (kl - kl_prev) / std::max(kl_prev, 1e-300);
         if (kl_prev > 1e-6 * total)
-          stats().maxi("max relative KL increase in one efficiency iteration", excess);
+          smax("max relative KL increase in one efficiency iteration", excess);
         VF_CHECK(kl <= kl_prev * (1. + 1e-6) + 1e-9 * total, "efficiency iteration ", k, " increases KL: ", kl_prev, " -> ", kl);
         kl_prev = kl;
       }
@@ -631,9 +639,9 @@ check(const json& c)
         const double slack = 1e-12 * mag;
         auto close = [&](double ref) { return std::fabs(stir_kl - ref) <= TOL_KL * ref + slack; };
         if (stir_weighting > 1e-6 * mag)
-          stats().maxi("max rel dev stir::KL vs its own weighting", std::fabs(stir_kl - stir_weighting) / stir_weighting);
+          smax("max rel dev stir::KL vs its own weighting", std::fabs(stir_kl - stir_weighting) / stir_weighting);
         if (x > 1e-6 * mag && s > 1e-6 * mag)
-          stats().maxi("rel dev stir::KL vs once-per-LOR KL (finding F2)", std::fabs(stir_kl - once) / once);
+          smax("rel dev stir::KL vs once-per-LOR KL (finding F2)", std::fabs(stir_kl - once) / once);
         if (!no_exclude || x == 0 || s == 0)
           VF_CHECK(close(stir_weighting) || close(once) || close(2 * once), "stir::KL = ", stir_kl, " but harness KL: once per LOR ", once, " (in-ring part ", s,
                    ", cross-ring part ", x, "), threshold ", thr);
